@@ -110,20 +110,19 @@ struct MediaFile : public ForwardFile_Ownership {
     ssize_t preadv(const struct iovec* iov, int n, off_t o) override { MP(m_file->preadv(iov, n, o)); }
     ssize_t pwrite(const void* b, size_t c, off_t o) override { MP(m_file->pwrite(b, c, o)); }
     ssize_t pwritev(const struct iovec* iov, int n, off_t o) override { MP(m_file->pwritev(iov, n, o)); }
-    int ftruncate(off_t len) override { if (len == 0) h->evicting(path); MP(m_file->ftruncate(len)); }
-    int fallocate(int mode, off_t o, off_t l) override { MP(m_file->fallocate(mode, o, l)); }
-    int fiemap(struct photon::fs::fiemap* m) override { MP(m_file->fiemap(m)); }
-    int fstat(struct stat* st) override { MP(m_file->fstat(st)); }
+    // open / stat / unlink / truncate / fallocate / fiemap / fstat are plain system calls in every in-tree media file system
+    // (only reads and writes go through an asynchronous engine), so they are not given yield points: the pool calls some
+    // of them with locks held that must not be kept across a yield
+    int ftruncate(off_t len) override { if (len == 0) h->evicting(path); return m_file->ftruncate(len); }
 };
 
 struct MediaFS : public ForwardFS_Ownership {
     H* h;
     MediaFS(IFileSystem* fs, H* h) : ForwardFS_Ownership(fs, true), h(h) {}
     IFile* open(const char* p, int flags) override { return open(p, flags, 0644); }
-    IFile* open(const char* p, int flags, mode_t mode) override { h->media_point(); auto f = m_fs->open(p, flags, mode); return f ? new MediaFile(f, h, p) : nullptr; }
-    int unlink(const char* p) override { h->evicting(p); h->media_point(); return m_fs->unlink(p); }
-    int truncate(const char* p, off_t len) override { if (len == 0) h->evicting(p); h->media_point(); return m_fs->truncate(p, len); }
-    int stat(const char* p, struct stat* st) override { h->media_point(); return m_fs->stat(p, st); }
+    IFile* open(const char* p, int flags, mode_t mode) override { auto f = m_fs->open(p, flags, mode); return f ? new MediaFile(f, h, p) : nullptr; }
+    int unlink(const char* p) override { h->evicting(p); return m_fs->unlink(p); }
+    int truncate(const char* p, off_t len) override { if (len == 0) h->evicting(p); return m_fs->truncate(p, len); }
 };
 
 ssize_t H::src_read(int fid, const struct iovec* iov, int iovcnt, off_t off) {
